@@ -11,6 +11,10 @@
    op 8  PatternConcept.from_objects(objs, K, is_extent = (thr = 1)): extent_i, extent (names),
          intent_i, intent (by name)
    op 9  describe_pattern({name: description}): the (name, description) pairs that are printed
+   op 10 both paths through the library's own eyes: L1 = from_context(K, 1000), L0 = from_context(K, 0);
+         L1 == L0, L0 == L1, every concept of L1 `in` L0 and vice versa, len(set(L1) | set(L0)),
+         len of a dict keyed by the concepts of both, every concept of one `==` some concept of the
+         other, the same for the two generators close_by_one / close_by_one_objectwise, len(L1), len(L0)
    Known open findings (code + 10*k when the guard of finding k is false):
      k = 1 (D16) object-wise path: the conventional closure of the empty set is not below every
                  object's closure;
@@ -26,6 +30,7 @@ Inductive c14_out :=
 | OLattice (cs : list (list nat * list desc)) (covers : list (list nat * list nat))
 | OConcepts (cs : list (list nat * list desc))
 | OViews (ext_i ext : list nat) (int_i : list desc) (int_named : list (nat * desc))
+| OAgree (flags : list bool) (union_sz dict_sz gen_union_sz n1 n0 : nat)
 | OKeyErr (name : nat)
 | OErr (kind : nat).
 
@@ -56,6 +61,7 @@ Definition finding_index (c : c14_case) : nat :=
       if objectwise_path c
       then (if guard_D16 (m_K c) then 0 else 1)
       else (if guard_D17 (m_K c) then 0 else 2)
+  | 10 => if guard_D17 (m_K c) then (if guard_D16 (m_K c) then 0 else 1) else 2
   | _ => 0
   end.
 
@@ -99,6 +105,26 @@ Definition c14_same (c : c14_case) : bool :=
       let v := pc_from_objects_views K (nth 0 (m_subsets c) []) (Nat.eqb (m_thr c) 1) in
       nat_list_eqb ei (pv_ext_i v) && nat_list_eqb en (pv_ext v)
       && descs_eqb ii (map snd (pv_int_i v)) && ddict_eqb inn (pv_int v)
+  | 10, OAgree flags u d gu n1 n0 =>
+      (* concepts compare (==) and hash by their extent read as a set *)
+      match mv_from_context K 1000, mv_from_context K 0 with
+      | Some a, Some b =>
+          let ea := map pc_ext a in let eb := map pc_ext b in
+          let sub x y := forallb (fun e => existsb (same_setb e) y) x in
+          let distinct := fix distinct (l : list (list nat)) : nat :=
+                            match l with
+                            | [] => 0
+                            | e :: r => (if existsb (same_setb e) r then 0 else 1) + distinct r
+                            end in
+          let eq := sub ea eb && sub eb ea in
+          bool_list_eqb flags [eq; eq; sub ea eb; sub eb ea; sub ea eb; sub eb ea]
+          && Nat.eqb u (distinct (ea ++ eb)) && Nat.eqb d (distinct (ea ++ eb))
+          && Nat.eqb gu (distinct (map pc_ext (mv_close_by_one K 1000) ++ map pc_ext (mv_cbo_objectwise K)))
+          && Nat.eqb n1 (length a) && Nat.eqb n0 (length b)
+      | _, _ => false
+      end
+  | 10, OErr 1 =>
+      match mv_from_context K 1000, mv_from_context K 0 with Some _, Some _ => false | _, _ => true end
   | 9, ODescs l => match describe_entries K (m_ds c) with Some r => ddict_eqb l r | None => false end
   | 9, OErr 2 => match describe_entries K (m_ds c) with None => true | Some _ => false end
   | _, _ => false
@@ -181,6 +207,12 @@ Definition c14_ok (c : c14_case) : bool :=
       && nat_list_eqb en (map (fun g => nth g (mv_onames (m_K c)) 0) ei)
       && descs_eqb ii (mv_int_spec K objs)
       && ddict_eqb inn (combine (mv_pnames (m_K c)) (mv_int_spec K objs))
+  | 10, OAgree flags u d gu n1 n0 =>
+      (* the direct and the binarising path return the same lattice: equal as POSets both ways,
+         mutually contained, and the concepts of both collapse to one copy each in a set / dict *)
+      let m := length (mv_concepts_spec K n) in
+      forallb (fun x => x) flags && Nat.eqb (length flags) 6
+      && Nat.eqb u m && Nat.eqb d m && Nat.eqb gu m && Nat.eqb n1 m && Nat.eqb n0 m
   | 9, ODescs l =>
       (* every name known; the pairs in dict order, without the AttributePS entries whose
          description is False (they print as the empty text) *)
@@ -215,6 +247,9 @@ Definition c14_show (c : c14_case) :=
    | 8 => let v := pc_from_objects_views K (nth 0 (m_subsets c) []) (Nat.eqb (m_thr c) 1) in
           OViews (pv_ext_i v) (pv_ext v) (map snd (pv_int_i v)) (pv_int v)
    | 9 => match describe_entries K (m_ds c) with Some r => ODescs r | None => OErr 2 end
+   | 10 => match mv_from_context K 1000, mv_from_context K 0 with
+           | Some a, Some b => OConcepts (map pc_pair a ++ [([], [])] ++ map pc_pair b)
+           | _, _ => OErr 1 end
    | _ => OConcepts (map pc_pair (mv_cbo_objectwise K))
    end,
    mv_concepts_spec (mv_cols K) (mv_n K)).
